@@ -65,3 +65,29 @@ pub fn search_count() -> u64 {
 pub fn count_search() {
     SEARCHES.with(|c| c.set(c.get() + 1));
 }
+
+// --- solutions chosen by the line wrapper ----------------------------------------------------------
+
+thread_local! {
+    static SOLUTIONS: RefCell<Option<Vec<(u8, usize, String)>>> = const { RefCell::new(None) };
+}
+
+/// Start recording the wrapper's solutions on this thread.
+pub fn start_solutions() {
+    SOLUTIONS.with(|t| *t.borrow_mut() = Some(Vec::new()));
+}
+
+/// Stop recording and return `(phase, top-level line index, serialised solution)` in application order;
+/// phase 0 = first wrapping, 1 = re-wrapping after multi-line string re-indentation.
+pub fn take_solutions() -> Vec<(u8, usize, String)> {
+    SOLUTIONS.with(|t| t.borrow_mut().take().unwrap_or_default())
+}
+
+#[inline]
+pub fn solution(phase: u8, line_index: usize, solution: impl FnOnce() -> String) {
+    SOLUTIONS.with(|t| {
+        if let Some(v) = t.borrow_mut().as_mut() {
+            v.push((phase, line_index, solution()));
+        }
+    });
+}
